@@ -262,6 +262,12 @@ PROPS["C11"] = {
 		H(f"c11_value_{k}", GEO, c11, funcs=["<GeoValue as GeoValuePBF>::to_blob", "<GeoValue as GeoValuePBF>::read"], bounds=b, sample="value payload symbolic", stubs=[MON])
 		for k, b in [("uint", "every u64"), ("int", "every i64"), ("bool", "both"), ("float", "every f32 bit pattern"), ("double", "every f64 bit pattern"), ("string", "ASCII strings of 0..=2 bytes")]
 	] + [
+		H("c11_value_read_kinds", GEO, c11, funcs=["<GeoValue as GeoValuePBF>::read"], bounds="one Value message field: every (field number u32, wire type u8) and every primitive payload (u64 varint, i64 zigzag, f32/f64 bit pattern); primitive reads answered by a scripted ValueReader", sample="(field, wire), payloads", stubs=[MON]),
+		H("c11_value_read_empty", GEO, c11, funcs=["<GeoValue as GeoValuePBF>::read"], bounds="empty Value message", sample="-", stubs=[MON]),
+	] + [
+		H(f"c11_value_write_{k}", GEO, c11, funcs=["<GeoValue as GeoValuePBF>::to_blob", "ValueWriter::write_pbf_key", "ValueWriter::write_varint", "ValueWriter::write_svarint"], bounds=b + "; bytes decoded by a reference protobuf reader in the harness", sample="value payload symbolic", stubs=[MON])
+		for k, b in [("uint", "every u64"), ("int", "every i64"), ("bool", "both"), ("float", "every f32 bit pattern"), ("double", "every f64 bit pattern")]
+	] + [
 		H(f"c11_layer_read_{nk}_{nv}", GEO, c11, funcs=["VectorTileLayer::read", "VectorTileFeature::read", "PropertyManager::add_key", "PropertyManager::add_val", "VTLPMap::add"],
 			bounds=f"layer with {nk} key and {nv} value table entries chosen from 2-element pools (duplicates occur), 1 feature with symbolic id (<128), geometry type 0..=3, 1 opaque geometry byte, 1 symbolic tag pair, extent < 128",
 			sample="layer bytes written by the harness' own MVT encoder from a symbolic ground truth", stubs=[MON, "HashMap model"], tier=t)
@@ -502,9 +508,13 @@ TIER_OVERRIDE = {
 	"c19_entries_v3_any_2": "thorough", "c15_h8_iter_coords_2x2": "thorough", "c15_h11_pyramid_include_l7": "thorough",
 	"c15_h9_grid_s2_1x2": "thorough", "c15_h9_grid_s256_256x1": "thorough",
 }
-if "C10" in PROPS:
+import os as _os
+_DEV_ALL = bool(_os.environ.get("VERIF_DEV_ALL"))  # development knob: run unregistered harnesses too (never set by a registered command)
+if _DEV_ALL:
+	UNREGISTERED = set()
+if "C10" in PROPS and not _DEV_ALL:
 	del PROPS["C10"]  # the layer-merge harness did not finish (2400 s); the operation itself is async + dyn (DESIGN.md 0.2)
-if "C17" in PROPS:
+if "C17" in PROPS and not _DEV_ALL:
 	del PROPS["C17"]  # no harness of the JSON string kernel finished (DESIGN.md 0.2 item 5, section 8 fallback rule)
 for _pid, _spec in PROPS.items():
 	if "harnesses" in _spec:
